@@ -2,6 +2,7 @@ import Solstat.Check
 import Solstat.Analyze
 import Solstat.Dir
 import Solstat.Report
+import Solstat.Opts
 open Solstat Solstat.Gen
 
 def splitTabs (s : String) : List String := s.splitOn "\t"
@@ -272,6 +273,39 @@ def handleFull (v o q implHex : String) : Verdict :=
   { kind := "FULLREPORT", agree := if modelLines == implLines then "A" else "D", oracle := if ok then "ok" else "VIOL",
     detail := if modelLines == implLines && ok then "" else s!"parts/stale mismatch or model difference ({modelLines.length} vs {implLines.length} lines)" }
 
+def optField (s : String) : Option String := if s == "-" then none else some (bytesToString (unhex s.toList))
+
+def parseTomlEnc (s : String) : Option TomlCfg :=
+  if s == "-" then none else
+  let kv := (s.splitOn ";").filterMap fun f => match f.splitOn "=" with | [k, v] => some (k, v) | _ => none
+  let lst (k : String) : List String := match lookup kv k with
+    | some v => if v.isEmpty then [] else (v.splitOn ",").map (fun h => bytesToString (unhex h.toList))
+    | none => []
+  some { path := (lookup kv "path").bind optField, optimizations := lst "opt", vulnerabilities := lst "vuln", qa := lst "qa" }
+
+/-- process-level: command line + configuration ↦ exit status, analysed directory, analysed patterns -/
+def handleResolve (cliPath tomlEnc contractsExists implExit implReport : String) : Verdict :=
+  let args : CliArgs := { path := optField cliPath, toml := parseTomlEnc tomlEnc }
+  match resolve args (contractsExists == "1") with
+  | .error e =>
+    let ok := implExit != "0" && implReport == "-"
+    { kind := "RESOLVE", agree := if ok then "A" else "D", oracle := "na",
+      detail := if ok then "" else s!"model: exits with failure ({e}); impl exit={implExit} report={if implReport == "-" then "absent" else "written"}" }
+  | .ok o =>
+    if implExit != "0" || implReport == "-" then
+      { kind := "RESOLVE", agree := "D", oracle := "na", detail := s!"model: analyses {o.path}; impl exit={implExit}" }
+    else
+      let lines := reportLinesOfHex implReport
+      let rb := readBack allSignatures lines
+      let sortS (xs : List String) : List String := (xs.toArray.qsort (· < ·)).toList
+      let seen := sortS rb.sectionsSeen.eraseDups
+      let want := sortS ((o.optimizations.map (·.name)) ++ (o.vulnerabilities.map (·.name)) ++ (o.qa.map (·.name))).eraseDups
+      let dirKey := ((o.path.splitOn "/").getLast?.getD "") ++ "_"
+      let filesOk := rb.out.all (fun t => t.2.1.startsWith dirKey) && !rb.out.isEmpty
+      let ok := seen == want && (filesOk || want.isEmpty)
+      { kind := "RESOLVE", agree := if ok then "A" else "D", oracle := "na",
+        detail := if ok then "" else s!"model: dir {o.path} patterns {want}; impl sections {seen}; files from the model's dir: {filesOk}" }
+
 def step (st : St) (line : String) : St × Option Verdict :=
   match splitTabs line with
   | ["ROOT", rid, ty, dbg] =>
@@ -302,6 +336,7 @@ def step (st : St) (line : String) : St × Option Verdict :=
     let st := { st with detImpl := truncate 2000 (((fid, det), impl) :: st.detImpl) }
     (st, some (handleDet st fid det impl))
   | ["LINES", fid, cat, variant, _fileNo, impl] => (st, some (handleLines st fid cat variant impl))
+  | ["RESOLVE", cliPath, tomlEnc, ce, implExit, implReport] => (st, some (handleResolve cliPath tomlEnc ce implExit implReport))
   | ["RENDER", cat, enc, implHex, same] => (st, some (handleRender cat enc implHex same))
   | ["FULLREPORT", v, o, q, implHex] => (st, some (handleFull v o q implHex))
   | ["DIR", cat, patterns, treeEnc, gtab, impl] => (st, some (handleDir cat patterns treeEnc gtab impl))
